@@ -41,6 +41,8 @@ const VSLOTS = {
 const CTX = {
   arrow:    { tpl: (J) => `__out.mk = () => ${J};`, mode: 'call2' },
   fn:       { tpl: (J) => `function mk() { return ${J}; }\n__out.mk = mk;`, mode: 'call2' },
+  assign:   { tpl: (J) => `let av;\n__out.mk = () => (av = ${J});`, mode: 'call2' },
+  assignFn: { tpl: (J) => `function mk(p) { let q; q = ${J}; return q; }\n__out.mk = () => mk(x);`, mode: 'call2' },
   block:    { tpl: (J) => `__out.mk = () => { if (c) { const r = ${J}; return r; } };`, mode: 'call2' },
   field:    { tpl: (J) => `class K { f = ${J}; }\n__out.mk = () => new K().f;`, mode: 'call2' },
   defparam: { tpl: (J) => `function mk(p = ${J}) { return p; }\n__out.mk = () => mk();`, mode: 'call2' },
